@@ -475,6 +475,9 @@ func (s *IndexedState) deleteDependencies(ctx *Context, id string) error {
 	for _, sr := range srs.Found {
 		Log(DEBUG, ctx, "IndexedState.deleteDependencies",
 			"location", s.Name, "id", id, "target", sr.Id)
+		if fact, have := s.IdToFact[sr.Id]; have && !deleteWithNames(fact, id) {
+			continue
+		}
 		if _, err := s.rem(ctx, sr.Id); nil != err {
 			return err
 		}
